@@ -108,8 +108,13 @@ func complete(input string) bool {
 	l := lexer.NewLexer(input)
 	for l.Next() {
 		if l.Err != nil {
-			// any other lexer error is for the parser to report
-			return l.Err != lexer.ErrUnterminatedString
+			if l.Err == lexer.ErrUnterminatedString {
+				return false
+			}
+			// any other lexer error is for the parser to report, on the whole block or literal the
+			// offending line belongs to: text that cannot be tokenised is judged on its characters
+			return strings.Count(input, "{") <= strings.Count(input, "}") &&
+				strings.Count(input, "[") <= strings.Count(input, "]")
 		}
 		if l.Token.Type != token.NotSticky {
 			continue
